@@ -25,7 +25,7 @@ def rules_c(ctx, F):
             ("node is not an error", "ts_subtree_is_error(result)", False),
             ("node is not missing", "ts_subtree_missing(result)", False),
             ("node is not fragile", "ts_subtree_is_fragile(result)", False),
-            ("no included-range difference inside node+lookahead", "ts_parser__has_included_range_difference(self, reusable_node_byte_offset(_), @has(ts_subtree_lookahead_bytes(result)))", False),
+            ("no included-range difference inside node+lookahead", "ts_parser__has_included_range_difference(self, reusable_node_byte_offset(_), @or(@has(ts_subtree_lookahead_bytes(result)), @has(ts_parser__lookahead_end_byte(self, result, _))))", False),
             ("first leaf is valid in the current state", "ts_parser__can_reuse_first_leaf(self, *state, result, table_entry)", True),
         ]
         ctx.gate("G1", fn, acc, preds, kill_names=("result",), accept_desc="retain-and-return of the reused node")
@@ -293,6 +293,25 @@ def pure_fn(F, name, depth=0, _memo={}):
     return ok
 
 
+def addend_params(F, g, _memo={}):
+    """indices of g's parameters that are an operand of `+` / `+=` somewhere in g (flow-insensitive)"""
+    key = (id(F), g.name)
+    if key not in _memo:
+        ids = {p["id"]: i for i, p in enumerate(g.params)}
+        out = set()
+        for pt, e in g.points():
+            for n in walk(e):
+                if n.get("k") == "bin" and n.get("op") == "+":
+                    for side in ("l", "r"):
+                        o = strip(n[side])
+                        if o.get("k") == "ref" and o.get("id") in ids:
+                            out.add(ids[o["id"]])
+                if n.get("k") == "assign" and n.get("op") == "+=" and strip(n["l"]).get("k") == "ref" and strip(n["l"]).get("id") in ids:
+                    out.add(ids[strip(n["l"])["id"]])
+        _memo[key] = out
+    return _memo[key]
+
+
 class SaturationMonitor(Monitor):
     """A local that was set to the saturating sentinel (UINT32_MAX) on this path must not be an
     operand of an addition: it wraps to a small number and every `<`-style range test built on the
@@ -331,6 +350,15 @@ class SaturationMonitor(Monitor):
                         other = strip(n["r" if side == "l" else "l"])
                         if not (other.get("k") == "int" and not other.get("v")):
                             return Viol("`%s` holds the saturating sentinel UINT32_MAX on this path and is added to `%s`: the sum wraps around" % (o["name"], show(other)[:50]), pt)
+        for n in own_walk(e):
+            # a saturated local handed to a local function that adds to the corresponding parameter
+            if n.get("k") == "call" and sat:
+                g = self.F.fns.get(callee_name(n) or "")
+                if g is not None:
+                    for ai, a in enumerate(n.get("a", [])):
+                        a = strip(a)
+                        if a.get("k") == "ref" and a.get("id") in sat and ai in addend_params(self.F, g):
+                            return Viol("`%s` holds the saturating sentinel UINT32_MAX on this path and is passed to %s, which adds to that parameter: the sum wraps around" % (a["name"], g.name), pt)
         for n in own_walk(e):
             if n.get("k") == "assign" and n.get("op") == "+=" and strip(n["l"]).get("k") == "ref" and strip(n["l"]).get("id") in sat:
                 return Viol("`%s` holds the saturating sentinel UINT32_MAX on this path and is incremented by `%s`: it wraps around" % (strip(n["l"])["name"], show(n["r"])[:50]), pt)
@@ -428,6 +456,40 @@ def rule_pending(ctx, F):
         ctx.gate("P8", fn, pops, [("a pop happens only for a pending entry", "iterator->is_pending", True), ("…once one subtree was counted", "iterator->subtree_count >= 1", True)], accept_desc="popping the pending subtree")
 
 
+def rule_lookahead_end(ctx, F):
+    """P9: the text examined for a node ends at its end + look-ahead bytes — or, when that reaches the end of
+    the old document (the node was lexed against end-of-input), at infinity: a range included later on
+    may extend such a node.  (Only present after the repair of finding F14; absent helper = older layout.)"""
+    fn = F.fns.get("ts_parser__lookahead_end_byte")
+    if fn is None:
+        # another layout of the same mechanism: a comparison with the old document's length inside the reuse test (or a callee of it)
+        rn = F.fns.get("ts_parser__reuse_node")
+        cands = [rn] + [F.fns[callee_name(c)] for _, c in (rn.calls() if rn else []) if callee_name(c) in F.fns and F.fns[callee_name(c)].file.endswith("parser.c")] if rn else []
+        for g in cands:
+            for b in g.blocks.values():
+                c = g.cond(b.id)
+                if c is not None and "ts_subtree_total_bytes(self->old_tree)" in show(c):
+                    ctx.ok("P9", "reuse_node:lookahead-window-unbounded-at-old-eof", "%s compares the examined extent with the old document's length (`%s`)" % (g.name, show(c)[:80]))
+                    return
+        ctx.bad("P9", "reuse_node:lookahead-window-unbounded-at-old-eof", "the range-difference veto of ts_parser__reuse_node measures a node's look-ahead in document bytes only "
+                "(no ts_parser__lookahead_end_byte widening it at the old end of input): a token that was lexed against end-of-input is reused when a later included range "
+                "extends it — `ab c` with ranges [0,4), then [0,4)[5,7) over `ab cdef`, re-parses to (ab)(c)(ef) instead of (ab)(cef)")
+        return
+    rets = [(pt, strip(e["e"])) for pt, e in fn.points() if e.get("k") == "ret"]
+    inf = [pt for pt, r in rets if r.get("k") == "int" and r.get("v") == 4294967295]
+    fin = [pt for pt, r in rets if not (r.get("k") == "int")]
+    d = [x for i in fn.ids_named("lookahead_end_byte") for x in fn.defs(i) if x is not None and x.get("k") != "uninit"]
+    if d and M(fn).match("end_byte_offset + ts_subtree_lookahead_bytes(tree)", d[0]):
+        ctx.ok("P9", "lookahead_end_byte:end-plus-lookahead", "the examined text ends at end_byte_offset + ts_subtree_lookahead_bytes(tree)")
+    else:
+        ctx.bad("P9", "lookahead_end_byte:end-plus-lookahead", "ts_parser__lookahead_end_byte no longer starts from end_byte_offset + ts_subtree_lookahead_bytes(tree)")
+    if inf and fin:
+        ctx.gate("P9", fn, fin, [("a finite window is used only if it ends before the old document does", "lookahead_end_byte >= ts_subtree_total_bytes(self->old_tree)", False)], accept_desc="returning the finite window")
+    else:
+        ctx.bad("P9", "lookahead_end_byte:unbounded-at-old-eof", "ts_parser__lookahead_end_byte no longer widens the window to UINT32_MAX for a node lexed against the old end of input: "
+                "`ab c` + newly included `ef` re-parses to (ab)(c)(ef) instead of (ab)(cef)")
+
+
 def rule_diff_cursor(ctx, F):
     """P7: the cursor into the included-range differences (which vetoes reuse of nodes whose text changed
     inclusion) only moves past a difference that ends at or before the parse position; the reuse test
@@ -469,6 +531,7 @@ def run(ctx):
         rule_saturation(ctx, F)
         rule_diff_cursor(ctx, F)
         rule_pending(ctx, F)
+        rule_lookahead_end(ctx, F)
     import rsrules
     rsrules.c01_rust(ctx)
     return ctx.finish(
